@@ -28,6 +28,15 @@ def _norm(vs, root):
     return out
 
 
+def pattern_text(p: dict, files) -> str:
+    """Instantiate a Collect.tla pattern [kind, f] on the nested layout pkg/m<f>/mod.<ext>."""
+    rel = files[p["f"] - 1][0]
+    d = f"m{p['f']:02d}"
+    ext = os.path.splitext(rel)[1]
+    return {"bare": f"pkg/{d}", "star2": f"**/{d}", "question": "pkg/m0?", "slash": f"{d}/", "prefix": f"pkg/{d}*",
+            "exact": rel, "ext": f"*{ext}" if ext else rel}[p["kind"]]
+
+
 def job(j: dict) -> dict:
     drive.preload()
     from src.api import Linter
@@ -36,6 +45,9 @@ def job(j: dict) -> dict:
     files = projects.build(j["n"], j["cross"], j["layout"], j["offset"])
     drive.write_tree(root, dict(files))
     (root / ".thailint.yaml").write_text(projects.CONFIGS[j["config"]])
+    if j.get("pats") is not None:
+        (root / ".thailintignore").write_text("".join(pattern_text(p, files) + "\n" for p in j["pats"]))
+        (root / ".git").mkdir(exist_ok=True)
     explicit = None
     if j["explicit"]:
         explicit = root.parent / j["explicit"]
@@ -126,6 +138,31 @@ def run(chk) -> None:
                     jobs.append({"n": n, "cross": [[1, 2], [3, 6]], "layout": layout, "offset": off,
                                  "cmd": cmd, "targets": tg, "config": config, "explicit": explicit,
                                  "root": str(scratch_root() / f"c10-{len(jobs)}" / "proj")})
+    # repository-level ignore patterns (Collect.tla): the walker of a directory run and a run naming each file
+    # must agree on which files are linted, whatever the patterns match
+    rc = tlc.run("Collect", "mc/Collect.cfg", workers=1, timeout=300)
+    chk.add_tlc("Collect: ignore-pattern sets, walker as coded", rc)
+    if rc.violation:
+        raise MachineryError("Collect.tla: WalkerMatchesUnion violated:\n" + rc.stdout[-1500:])
+    rp = tlc.run("Collect", "mc/Collect_pruning.cfg", workers=1, timeout=300)
+    chk.add_tlc("Collect: a walker pruning ignored directories (non-vacuity)", rp)
+    if not rp.violation:
+        raise MachineryError("vacuity: a walker that prunes ignored directories satisfies WalkerMatchesUnion")
+    pcases = tlc.parse_cases(rc.stdout)
+    if len(pcases) < 50:
+        raise MachineryError(f"Collect.tla emitted {len(pcases)} pattern sets")
+    dir_and_files = [t for t in targets if t[0] != "list" or len(t[1]) == n]
+    for ci, cmd in enumerate(cmds):
+        mine = list(pcases)
+        if quick:
+            chk.rng.shuffle(mine)
+            # always: the pattern that matches every directory and no file, and one bare directory name
+            always = [pc for pc in pcases if [p["kind"] for p in pc["pats"]] in (["question"], ["bare"])][:3]
+            mine = always + [pc for pc in mine if pc not in always][:4]
+        for pi, pc in enumerate(mine):
+            jobs.append({"n": n, "cross": [[1, 2], [3, 6]], "layout": "nested", "offset": [0, 5, 10][(ci + pi) % 3],
+                         "cmd": cmd, "targets": dir_and_files, "config": "base", "explicit": None, "pats": pc["pats"],
+                         "root": str(scratch_root() / f"c10-{len(jobs)}" / "proj")})
     log(f"C10: {len(jobs)} jobs x <= {len(targets)} targets")
     res = pool.run_jobs(job, jobs, nproc=NCPU, timeout=600)
     records, meta = [], []
@@ -140,6 +177,8 @@ def run(chk) -> None:
         case = {"cmd": j["cmd"], "layout": j["layout"], "offset": j["offset"], "kind": rec["kind"],
                 "config": j["config"], "explicit": j["explicit"],
                 "sel": rec["sel"], "law": rec["law"]}
+        if j.get("pats") is not None:
+            case["pats"] = j["pats"]
         a = rec["whole"] if rec["law"] == "union" else rec["api"]
         b = [x for p in rec["parts"] for x in p] if rec["law"] == "union" else rec["cli"]
         chk.count(case, nontrivial=bool(a or b))
@@ -151,7 +190,10 @@ def run(chk) -> None:
             v = rev[next(iter(diff)) - 1]
             relation = {"dir": "DirVsFiles", "list": "ListVsFiles"}[rec["kind"]] if rec["law"] == "union" else "ApiVsCli"
             side = "whole/api only" if (Counter(a) - Counter(b)) else "parts/cli only"
-            chk.reject({"rule": v["rule_id"], "relation": relation, "target": rec["kind"]},
+            key = {"rule": v["rule_id"], "relation": relation, "target": rec["kind"]}
+            if j.get("pats"):
+                key["ignore_patterns"] = sorted({p["kind"] for p in j["pats"]})
+            chk.reject(key,
                        dict(case, v=v, side=side),
                        f"{relation}: thailint {j['cmd']} on {rec['kind']} {rec['sel']} disagrees on "
                        f"{v['rule_id']} at {v['file_path']}:{v['line']} ({side})")
